@@ -38,7 +38,7 @@ def judge(specs, links, order, link_order, cache=True):
                     if info is None or c.inputs[i].info is None or c.inputs[i].info.grid is None or c.inputs[i].info.units is None or c.inputs[i].info.time is None:
                         bad.append(("input_info_incomplete", f"{n}.{i}"))
                     else:
-                        src = next(a for a, b in links if b == (n, i))
+                        src = next(l[0] for l in links if l[1] == (n, i))
                         smeta = comps[src[0]].outputs[src[1]].info.meta
                         for k, v in c.inputs[i].info.meta.items():
                             if k not in smeta or smeta[k] != v:
@@ -88,7 +88,7 @@ def run_case(case):
     cnt = res["counters"]
     for specs, links in case["shapes"]:
         specs = [(s[0], [tuple(x) for x in s[1]], [tuple(x) for x in s[2]], s[3]) for s in specs]
-        links = [((a[0], a[1]), (b[0], b[1])) for a, b in links]
+        links = [((l[0][0], l[0][1]), (l[1][0], l[1][1])) + tuple(l[2:]) for l in links]
         names = [s[0] for s in specs]
         orders = [case["order"]] if case.get("order") else list(itertools.permutations(names))
         if case.get("link_order"):
@@ -182,6 +182,23 @@ def two_slot_shapes():
                         yield [X, Y], links
 
 
+def trunk_shapes():
+    """one producer output, a pass-through adapter shared by two consumers (one target at the output, two registered end points)"""
+    for om in ("decl", "arg", "open"):
+        for ia, ib in itertools.product(("decl", "arg"), repeat=2):
+            for offs in ((0, 0, 0), (1, 0, 0), (0, 0, 2)):
+                for extra in (False, True):
+                    X = ("X", [], [("o", om, "const")], offs[0])
+                    Y = ("Y", [("i", ia)], [], offs[1])
+                    Z = ("Z", [("i", ib)], [("o", "decl", "pull:i")] if extra else [], offs[2])
+                    specs = [X, Y, Z]
+                    links = [(("X", "o"), ("Y", "i"), "t"), (("X", "o"), ("Z", "i"), "t")]
+                    if extra:
+                        specs.append(("W", [("i", "decl")], [], 0))
+                        links.append((("Z", "o"), ("W", "i")))
+                    yield specs, links
+
+
 def stuck_plus_arg_shapes():
     """a genuinely stuck pair (mutual initial pulls) next to components that hand in their infos on every call"""
     for src_mode in ("decl", "arg", "open"):
@@ -202,6 +219,7 @@ def run(tier, seed, agg):
     shapes += list(single_slot_shapes(3, lambda n: [(0, 0, 0)] if q else [(0, 0, 0), (1, 0, 2)], max_ext=1 if q else 99))
     shapes += list(two_slot_shapes())
     shapes += list(stuck_plus_arg_shapes())
+    shapes += list(trunk_shapes())
     cases = [dict(shapes=shapes[i : i + 40], lo_mode="two" if q else "all") for i in range(0, len(shapes), 40)]
     # the same with ConnectHelper(cache=False): the harness components hand in everything they can on every call, so nothing may depend on the cache
     nocache = list(single_slot_shapes(2, lambda n: [(0, 0), (1, 0)])) + list(two_slot_shapes()) + list(stuck_plus_arg_shapes())
